@@ -520,6 +520,15 @@ def forms_msp430():
         for x in ext:
             code += w(x)
         yield it(txt, code, S + 'EMU/' + txt.split()[0].upper())
+    # RLA/RLC dst = ADD/ADDC dst,dst with the operand in every destination mode; in symbolic (PC-relative) mode the two copies of
+    # the operand get displacements that differ by the two bytes between their extension words
+    for mn, op in (('rla', 5), ('rlc', 6)):
+        for bw, suf in ((0, ''), (1, '.b')):
+            for tgt in (BASE - 0x100, BASE, BASE + 2, BASE + 3, BASE + 4, BASE + 6, BASE + 0x200):
+                code = w(op << 12 | 0 << 8 | 1 << 7 | bw << 6 | 1 << 4 | 0) + w((tgt - (BASE + 2)) & 0xffff) + w((tgt - (BASE + 4)) & 0xffff)
+                yield it('org %d\n\t%s%s %d' % (BASE, mn, suf, tgt), code, S + 'EMU/' + mn.upper() + '/sym', at=BASE)
+            yield it('%s%s 6(r9)' % (mn, suf), w(op << 12 | 9 << 8 | 1 << 7 | bw << 6 | 1 << 4 | 9) + w(6) + w(6), S + 'EMU/' + mn.upper() + '/idx')
+            yield it('%s%s &544' % (mn, suf), w(op << 12 | 2 << 8 | 1 << 7 | bw << 6 | 1 << 4 | 2) + w(544) + w(544), S + 'EMU/' + mn.upper() + '/abs')
 
 
 def forms_8051():
